@@ -129,35 +129,84 @@ pub fn check_peg(conf: &PegConfig, seed: u64, h: &SparseMatrix) -> Option<String
     }
     let want_w = conf.wc.min(conf.nrows);
     let mut m = BitMat::zeros(conf.nrows, conf.ncols);
+    // Is placing `row` as the next edge of column j allowed by the PEG rule in state m?
+    fn edge_ok(m: &BitMat, j: usize, row: usize) -> Result<(), String> {
+        let d = row_distances(m, j);
+        let w: Vec<usize> = (0..m.r).map(|i| m.row_weight(i)).collect();
+        let unreachable: Vec<usize> = (0..m.r).filter(|&i| d[i].is_none()).collect();
+        let (pool, what): (Vec<usize>, &str) = if !unreachable.is_empty() {
+            (unreachable, "unreachable")
+        } else {
+            let dmax = d.iter().map(|x| x.unwrap()).max().unwrap();
+            ((0..m.r).filter(|&i| d[i] == Some(dmax)).collect(), "at maximal distance")
+        };
+        if !pool.contains(&row) {
+            return Err(format!("went to check {} (distance {:?}) although checks {:?} were {}", row, d[row], pool, what));
+        }
+        let wmin = pool.iter().map(|&i| w[i]).min().unwrap();
+        if w[row] != wmin {
+            return Err(format!("went to check {} of degree {} although a check of degree {} was {}", row, w[row], wmin, what));
+        }
+        Ok(())
+    }
+    // Some order of the column's entries must be a legal insertion order. The order in which the
+    // column lists them is tried first; a matrix representation that does not keep insertion
+    // order (sorted lists, sets) is not a violation of anything, so if that order fails the
+    // others are searched (depth first; the rule prunes hard, and columns are short).
+    fn search(m: &mut BitMat, j: usize, left: &mut Vec<usize>, budget: &mut u64) -> bool {
+        if left.is_empty() {
+            return true;
+        }
+        for idx in 0..left.len() {
+            if *budget == 0 {
+                return true; // undecided within the budget: not judged
+            }
+            *budget -= 1;
+            let row = left[idx];
+            if edge_ok(m, j, row).is_ok() {
+                left.remove(idx);
+                m.a[row][j] = 1;
+                if search(m, j, left, budget) {
+                    return true;
+                }
+                m.a[row][j] = 0;
+                left.insert(idx, row);
+            }
+        }
+        false
+    }
     for j in 0..conf.ncols {
         let order: Vec<usize> = h.iter_col(j).cloned().collect();
         if order.len() != want_w {
             return Some(format!("seed {}: column {} has weight {} instead of min(wc, rows) = {}", seed, j, order.len(), want_w));
         }
+        let mut sorted = order.clone();
+        sorted.sort_unstable();
+        sorted.dedup();
+        if sorted.len() != order.len() {
+            return Some(format!("seed {}: column {} lists a row twice", seed, j));
+        }
+        let mut first_err = None;
         for (t, &row) in order.iter().enumerate() {
-            let d = row_distances(&m, j);
-            let w: Vec<usize> = (0..m.r).map(|i| m.row_weight(i)).collect();
-            let unreachable: Vec<usize> = (0..m.r).filter(|&i| d[i].is_none()).collect();
-            let (pool, what): (Vec<usize>, &str) = if !unreachable.is_empty() {
-                (unreachable, "unreachable")
-            } else {
-                let dmax = d.iter().map(|x| x.unwrap()).max().unwrap();
-                ((0..m.r).filter(|&i| d[i] == Some(dmax)).collect(), "at maximal distance")
-            };
-            if !pool.contains(&row) {
-                return Some(format!(
-                    "seed {}: edge {} of column {} went to check {} (distance {:?}) although checks {:?} were {}",
-                    seed, t, j, row, d[row], pool, what
-                ));
-            }
-            let wmin = pool.iter().map(|&i| w[i]).min().unwrap();
-            if w[row] != wmin {
-                return Some(format!(
-                    "seed {}: edge {} of column {} went to check {} of degree {} although a check of degree {} was {}",
-                    seed, t, j, row, w[row], wmin, what
-                ));
+            if let Err(e) = edge_ok(&m, j, row) {
+                first_err = Some(format!("seed {}: edge {} of column {} {}", seed, t, j, e));
+                break;
             }
             m.a[row][j] = 1;
+        }
+        if let Some(e) = first_err {
+            for &row in &order {
+                m.a[row][j] = 0;
+            }
+            let mut left = order.clone();
+            let mut budget = 20_000u64;
+            if !search(&mut m, j, &mut left, &mut budget) {
+                return Some(format!("{} (and no other order of the column's entries {:?} is a legal insertion order either)", e, order));
+            }
+            // a legal order exists: the column is in m now
+            for &row in &order {
+                m.a[row][j] = 1;
+            }
         }
     }
     if BitMat::from_sparse(h) != m {
